@@ -112,6 +112,13 @@ def gen_case(rng, thorough):
     qlen = rng.choice([1, 2, 3, 5, 9, 10, 11, 17, 40] + ([100, 200] if thorough else []))
     positional = rng.random() < 0.5
     pos_every = rng.choice([1, 2, 3])
+    # re-keying the straggler during the load (priority inheritance / task_reschedule do this):
+    #  "noop"  = to its own, unchanged priority, every few rounds from the start;
+    #  "urgent" = to a more urgent (still less urgent than the stream) priority after it was boosted
+    rekey = rng.choice([None, None, None, "noop", "urgent"])
+    if rekey:
+        draw = rng.choice(["1/4", "1/2"])
+        factor = "6/5"
     lines = [f"pos 0 new {factor}", f"pos 0 draw {draw}"]
     for d in range(max(1, drains)):
         lines += gen_history(rng, n_hist // max(1, drains), nxt)
@@ -152,8 +159,14 @@ def gen_case(rng, thorough):
             load += ["pos 0 popleft"] * k
         else:
             load.append(f"pos 0 appendpri {next(nxt)} 0")
+        if (rekey == "noop" and i % 3 == 2) or (rekey == "urgent" and i >= max(10, qlen + 2) + 3 and i % 4 == 0):
+            # observe first (a maintenance round may just have boosted the entry), then re-key
+            load.append("pos 0 counters")
+            load.append("pos 0 prios")
+            load.append(f"pos 0 resched {strag} " + ("5" if rekey == "noop" else rng.choice(["4", "3", "2", "1"])))
         load.append("pos 0 counters")
         load.append("pos 0 prios")
+    meta["rekey"] = rekey
     lines += load
     return lines, meta
 
@@ -207,6 +220,7 @@ def oracle(lines, outs, meta, tags):
     prev = None
     last_ctr = None
     prev_ctr = None
+    rekeyed_now = set()           # entries re-keyed since the last snapshot
     ins_count = 0                 # insertions (append/append_pri/insert calls) seen so far
     born = {}                     # object -> ins_count just before it was inserted
     for idx in range(0, start):
@@ -225,6 +239,18 @@ def oracle(lines, outs, meta, tags):
             t = ln.split()
             born[int(t[3] if op == "appendpri" else t[4])] = ins_count
             ins_count += 1
+        if op == "resched" and out.startswith("obj ") and prev is not None:
+            # a re-key to a *different* priority, or of an entry that carries a boost (the re-keyed
+            # entry starts afresh without it), makes the entry new; a re-key of an unboosted entry to
+            # its own priority changes nothing, in particular not how long it has been waiting
+            t = ln.split()
+            o = int(t[3])
+            was = {p[0]: p for p in prev}.get(o)
+            if was is not None and (was[3] != 0 or was[2] != Fraction(t[4])):
+                born[o] = ins_count
+                rekeyed_now.add(o)
+            elif was is not None:
+                tags.add("noop-rekey-of-unboosted-entry")
         if op == "popleft":
             if out == f"obj {strag}" and popped_at is None:
                 popped_at = rounds
@@ -264,6 +290,21 @@ def oracle(lines, outs, meta, tags):
                         if bo > need + Fraction(1, 10**6) * max(1, abs(need)):
                             return idx, f"entry {o} (base {b}, waiting {age} insertions, queue length {n_now}) considered: boost <= {need}", \
                                 out, f"a long-waiting, less urgent regular entry was not considered in a maintenance round", "straggler-not-considered"
+            if prev is not None and rekeyed_now:
+                # an entry re-keyed since the last snapshot: whatever boost it carries now must be
+                # within the bound for its *new* priority
+                before = {p[0]: p for p in prev}
+                regb = [before[p[0]] for p in reg if p[0] in before and p[0] not in rekeyed_now]
+                if regb:
+                    mn0 = min(p[2] + p[3] for p in regb)
+                    for o, c, b, bo in cur:
+                        if o in rekeyed_now and c != 0 and bo != 0 and o in before and before[o][2] != b:
+                            tags.add("rekey-of-boosted-entry")
+                            lo = (mn0 - b) * factor if b > mn0 else Fraction(0)
+                            if bo < lo - Fraction(1, 10**6) * max(1, abs(lo)):
+                                return idx, f"boost of the re-keyed entry {o} (new base {b}) >= {lo}", out, \
+                                    f"entry {o} keeps a boost granted for its old priority: boosted beyond the bound relative to the most urgent regular entry", "boost-stale-after-rekey"
+            rekeyed_now = set()
             if prev is not None:
                 before = {p[0]: p for p in prev}
                 changed = [p for p in cur if p[0] in before and before[p[0]][3] != p[3]]
@@ -303,6 +344,8 @@ def oracle(lines, outs, meta, tags):
         tags.add("equal-priorities-with-positional-head")
     if meta["n_hist"] >= 200:
         tags.add("long-history")
+    if meta.get("rekey"):
+        tags.add("straggler-rekeyed-" + meta["rekey"])
     if meta.get("withdrawn"):
         tags.add("history-with-find-removals")
     if meta["drains"]:
